@@ -186,9 +186,6 @@ func readIntervals(r io.Reader, typ string) ([]bgzf.Offset, error) {
 		}
 	}
 
-	if !sort.IsSorted(byVirtOffset(offsets)) {
-		sort.Sort(byVirtOffset(offsets))
-	}
 	return offsets, nil
 }
 
